@@ -1129,7 +1129,8 @@ class Key(object):
             self.public_byte = self.public_compressed_byte if self.compressed else self.public_uncompressed_byte
             if strict:
                 px, py = self.public_point()
-                if not 0 <= px < secp256k1_p or (py * py - px * px * px - 7) % secp256k1_p != 0:
+                if not 0 <= px < secp256k1_p or not 0 <= py < secp256k1_p or \
+                        (py * py - px * px * px - 7) % secp256k1_p != 0:
                     raise BKeyError("Invalid public key, point is not on the secp256k1 curve")
 
         elif self.is_private and self.key_format == 'decimal':
